@@ -1082,6 +1082,31 @@ static ElementType value_type_to_elem_type(ValueType vtype) {
     }
 }
 
+/* An array literal with elements evaluates to a fixed array (VAL_ARRAY); the growing and
+ * shrinking builtins work on dynamic arrays.  Copies a fixed array of ints, floats, bools or
+ * strings into a new dynamic array (NULL for other element types). */
+static DynArray *fixed_array_to_dyn(const Array *a) {
+    if (!a) return NULL;
+    ElementType et;
+    switch (a->element_type) {
+        case VAL_INT: et = ELEM_INT; break;
+        case VAL_FLOAT: et = ELEM_FLOAT; break;
+        case VAL_BOOL: et = ELEM_BOOL; break;
+        case VAL_STRING: et = ELEM_STRING; break;
+        default: return NULL;
+    }
+    DynArray *d = dyn_array_new(et);
+    for (int i = 0; i < a->length; i++) {
+        switch (a->element_type) {
+            case VAL_INT: dyn_array_push_int(d, ((long long*)a->data)[i]); break;
+            case VAL_FLOAT: dyn_array_push_float(d, ((double*)a->data)[i]); break;
+            case VAL_BOOL: dyn_array_push_bool(d, ((bool*)a->data)[i]); break;
+            default: dyn_array_push_string_copy(d, ((char**)a->data)[i]); break;
+        }
+    }
+    return d;
+}
+
 static Value builtin_array_push(Value *args) {
     /* array_push(array, value) -> array
      * For empty array literal [], infers type from first push
@@ -1129,6 +1154,13 @@ static Value builtin_array_push(Value *args) {
         return create_dyn_array(arr);
     }
     
+    /* A non-empty array literal: continue with a dynamic copy (the result is a new array value,
+     * as it is for every array_push) */
+    if (args[0].type == VAL_ARRAY) {
+        DynArray *copy = fixed_array_to_dyn(args[0].as.array_val);
+        if (copy) args[0] = create_dyn_array(copy);
+    }
+
     /* Must be a dynamic array */
     if (args[0].type != VAL_DYN_ARRAY) {
         fprintf(stderr, "Error: array_push() requires a dynamic array (use [] to create one)\n");
@@ -1183,6 +1215,22 @@ static Value builtin_array_push(Value *args) {
 
 static Value builtin_array_pop(Value *args) {
     /* array_pop(array) -> value */
+    if (args[0].type == VAL_ARRAY && args[0].as.array_val) {
+        /* Fixed array (from a literal): take the last element off in place */
+        Array *fa = args[0].as.array_val;
+        if (fa->length == 0) {
+            fprintf(stderr, "Error: array_pop() on empty array\n");
+            return create_void();
+        }
+        int last = fa->length - 1;
+        switch (fa->element_type) {
+            case VAL_INT: fa->length = last; return create_int(((long long*)fa->data)[last]);
+            case VAL_FLOAT: fa->length = last; return create_float(((double*)fa->data)[last]);
+            case VAL_BOOL: fa->length = last; return create_bool(((bool*)fa->data)[last]);
+            case VAL_STRING: fa->length = last; return create_string(((char**)fa->data)[last]);
+            default: break;
+        }
+    }
     if (args[0].type != VAL_DYN_ARRAY) {
         fprintf(stderr, "Error: array_pop() requires a dynamic array\n");
         return create_void();
@@ -1233,6 +1281,10 @@ static Value builtin_array_pop(Value *args) {
 
 static Value builtin_array_remove_at(Value *args) {
     /* array_remove_at(array, index) -> array */
+    if (args[0].type == VAL_ARRAY) {
+        DynArray *copy = fixed_array_to_dyn(args[0].as.array_val);
+        if (copy) args[0] = create_dyn_array(copy);
+    }
     if (args[0].type != VAL_DYN_ARRAY) {
         fprintf(stderr, "Error: array_remove_at() requires a dynamic array\n");
         return create_void();
